@@ -7,7 +7,7 @@ RULE = ('a reference encoder enumerates replies: question names of up to 3 label
         'answer lists over 5 record types {A, AAAA, PTR, CNAME, TXT} x 4 compression styles {uncompressed, pointer, pointer to '
         'pointer, label+pointer} (also inside PTR/CNAME RDATA), header variants (flags, rcode, extra NS+OPT sections): quick = 1 '
         'header x (names <= 2 labels x lists <= 2, 3-label names x lists <= 1) + 2 headers x lists <= 1; thorough = 4 headers x lists <= 2 for all names, '
-        'lists of exactly 3 for names <= 1 label x 2 headers, 2 more headers x lists <= 1; plus 16 malformed seeds (pointer loops, '
+        'lists of exactly 3 for names <= 1 label x 2 headers, 2 more headers x lists <= 1; plus 15 hand-made seeds (pointer loops, '
         'forward pointers, over-long names, count/length lies).  Every message is decoded intact, at every truncation and with '
         'every octet set to {00, FF, C0, 3F, 0C, +1, own offset-1}; a strict reference decoder classifies each datagram and on '
         'well-formed ones Squid\'s header, question and answer records must equal the reference; packed queries '
